@@ -95,7 +95,11 @@ impl StartOpts {
         let scratch = std::env::temp_dir().join(format!("tpv-lsp-{}-{tag}", std::process::id()));
         let ws = scratch.join("ws");
         let _ = std::fs::create_dir_all(&ws);
+        let ws = std::fs::canonicalize(&ws).unwrap_or(ws);
         let _ = std::fs::write(ws.join("seed.st"), "(* seed *)\n");
+        // no on-disk index cache for the scratch workspace (it would be rewritten on every
+        // watcher event)
+        let _ = std::fs::write(ws.join("trust-lsp.toml"), "[indexing]\ncache = false\n");
         let root = format!("file://{}", ws.display());
         StartOpts {
             root_uri: Some(root.clone()),
@@ -469,38 +473,30 @@ impl Server {
         )
     }
 
+    /// `workspace/didChangeWatchedFiles` with the given (uri, type) events
+    /// (1 = Created, 2 = Changed, 3 = Deleted).
+    pub fn watched(&mut self, events: &[(&str, u8)]) -> Result<(), LspError> {
+        let changes: Vec<J> = events.iter().map(|(u, t)| json!({"uri": u, "type": t})).collect();
+        self.notify("workspace/didChangeWatchedFiles", json!({"changes": changes}))
+    }
+
+    /// One round trip. The server starts its handlers in arrival order and every handler
+    /// used here changes the server's state before its first await, so when the answer
+    /// arrives all earlier notifications have taken effect.
+    pub fn barrier(&mut self) -> Result<(), LspError> {
+        self.doc_request("textDocument/foldingRange", "file:///tpv-barrier/none.st")?;
+        Ok(())
+    }
+
     /// Close the document and report its file as deleted, so that nothing of it stays in the
     /// server's project (a closed document otherwise remains indexed: its declarations would
     /// clash with the next document's, and every leftover file slows each analysis down).
-    /// The server handles the deletion asynchronously and ends it by re-publishing the
-    /// diagnostics of whatever is open at that moment; to keep that away from the next
-    /// document this waits for the handler's "Workspace update" log message and then for a
-    /// barrier request, after which the handler has finished.
+    /// (The deletion handler ends by re-publishing the diagnostics of whatever is open at
+    /// that moment; published diagnostics are not judged, so that is harmless.)
     pub fn close_and_forget(&mut self, uri: &str) -> Result<(), LspError> {
         self.notify("textDocument/didClose", json!({"textDocument": {"uri": uri}}))?;
-        let seen = self.workspace_updates;
-        self.notify(
-            "workspace/didChangeWatchedFiles",
-            json!({"changes": [{"uri": uri, "type": 3}]}),
-        )?;
-        let deadline = Instant::now() + request_timeout();
-        while self.workspace_updates == seen {
-            let left = deadline.saturating_duration_since(Instant::now());
-            if left.is_zero() {
-                break;
-            }
-            match self.rx.recv_timeout(left) {
-                Ok(msg) => {
-                    self.absorb(msg)?;
-                }
-                Err(RecvTimeoutError::Timeout) => break,
-                Err(RecvTimeoutError::Disconnected) => {
-                    return Err(self.gone_or("server closed its stdout".into()));
-                }
-            }
-        }
-        self.doc_request("textDocument/foldingRange", uri)?;
-        Ok(())
+        self.watched(&[(uri, 3)])?;
+        self.barrier()
     }
 
     pub fn forget_published(&mut self, uri: &str) {
@@ -650,6 +646,12 @@ impl Pool {
             }
         }
         res
+    }
+
+    /// The scratch workspace folder announced to the server (`StartOpts::plain`).
+    pub fn workspace_dir(&self) -> Option<PathBuf> {
+        let ws = self.opts.scratch.as_ref()?.join("ws");
+        Some(std::fs::canonicalize(&ws).unwrap_or(ws))
     }
 
     pub fn shutdown(&self) {
